@@ -262,7 +262,12 @@ def stream_case(draw):
     lit = draw(st.integers(0, 6))
     via = draw(st.sampled_from(["stream-reader", "record-reader", "record_stream", "rdump"]))
     engine = draw(st.sampled_from(["interpreted", "compiled"]))
-    return {"descs": descs, "files": files, "op": op, "lit": lit, "via": via, "engine": engine}
+    # records that HAVE the field but with no value (None): present, and judged by the condition like any value
+    nones = draw(st.lists(st.integers(0, 17), max_size=4, unique=True)) if op in ("==", "!=", "in", "not in") else []
+    # records that carry the field as a member of a GROUPED record: they have the field like any other
+    grouped = draw(st.lists(st.integers(0, 17), max_size=3, unique=True))
+    return {"descs": descs, "files": files, "op": op, "lit": lit, "via": via, "engine": engine, "nones": nones,
+            "grouped": grouped}
 
 
 def check_stream(case, ctx):
@@ -295,7 +300,16 @@ def check_stream(case, ctx):
             p = os.path.join(tmp, "f%d.records" % fi)
             w = RecordWriter(p)
             for di, v in recs:
+                if k in case.get("nones", ()) and case["descs"][di]["has"]:
+                    v = None
+                    ctx.cls("field-present-but-None")
                 r = descs[di]("n%d" % k, v, _generated=GEN)
+                if k in case.get("grouped", ()):
+                    from flow.record import GroupedRecord
+
+                    extra = RecordDescriptor("c08/extra", [("string", "e")])("x", _generated=GEN)
+                    r = GroupedRecord("c08/grp", [extra, r] if k % 2 else [r, extra])
+                    ctx.cls("field-in-grouped-record")
                 k += 1
                 w.write(r)
                 if case["descs"][di]["has"]:
